@@ -179,4 +179,12 @@ def correspondence(rng, tier):
     r['distinct'] = r.get('distinct', 0) + f.get('distinct', 0)
     r.setdefault('distribution', {})['complex_history_programs'] = f.get('programs', 0)
     r['rule'] = r.get('rule', '') + '; plus complex_history_programs: complex-kernel histories incl. a dof() that raises part-way followed by dof() of unrelated numbers (class-level accumulators), model CKernel.v'
+    # la_operands_unmodified: the linear-algebra calls of the C15 generator, checked only for "operands (and the
+    # bases of views) are not modified, results are fresh and equal on a repeated call" (harness/lu_cases.py)
+    f = __import__('lu_cases').operands_unmodified_correspondence(rng, tier, 'C10la')
+    r['mismatches'] += f.get('mismatches', [])
+    r['programs'] += f.get('programs', 0); r['steps'] += f.get('steps', 0)
+    r['distinct'] = r.get('distinct', 0) + f.get('distinct', 0)
+    r.setdefault('distribution', {})['la_operands_unmodified_programs'] = f.get('programs', 0)
+    r['rule'] = r.get('rule', '') + '; plus la_operands_unmodified: ' + f.get('rule', '')
     return r
